@@ -65,6 +65,18 @@ CLAIMED = {
         technique='key-projection and hash-shape extraction from MIR / impl tables (static analysis)',
         engine='C',
     ),
+    'C11': dict(
+        category='model_checking',
+        text='All symbolic paths of set_userinfo/set_host/set_port (None and Some) are explored with affine values: Δ(self.end) equals the net length change of the splices, '
+             'start is fixed, splices lie in the window, holes are tiled exactly (lengths and delimiter bytes), no usize subtraction can underflow — an inductive invariant of the handle, '
+             'so it holds after any sequence of calls in any order. The three scanners are re-verified by Engine B in parametric-start mode (arbitrary offset in a larger buffer: they '
+             'return exactly the sub-component span and never read outside the authority). Handle wiring (find_authority window) and family twins are checked.',
+        design_ref='DESIGN.md §3 Engine D (D1, D2), Engine B parametric start, §4 C11',
+        note='That the edited text re-parses with exactly the requested sub-component value (language closure, D3) is decided under C04/C05 for the reference setters; for the authority handle the splice target '
+             'is the verified scanner span or the authority edge plus the literal delimiter, which is what D1/D2/B establish. Genuine defect F3 was repaired by a fix: commit; all five unbalanced paths are reported on the pre-fix tree.',
+        technique='path-sensitive affine symbolic evaluation of MIR (effect analysis) + scanner typestate analysis (static analysis)',
+        engine='D+B',
+    ),
     'C13': dict(
         category='proof',
         text='Exact language inclusions on the compiled automata: every URI-family type ⊆ its IRI twin, full ⊆ reference types, URI family ⊆ ASCII '
